@@ -33,7 +33,8 @@ Init == \/ s = InitSubject /\ h = << >> /\ last = [op |-> "none"]
 Next == \E c \in Calls : s' = ObsApply(s, c) /\ h' = Append(h, c) /\ last' = c
 Spec == Init /\ [][Next]_vars
 
-Bound == TLCGet("level") <= Depth
+\* level 1 is the initial state: histories of at most Depth calls
+Bound == TLCGet("level") <= Depth + 1
 
 Inv == OneObserverPerEndpoint(s)
 StepOk == StepProps(s, last', s')
